@@ -26,6 +26,11 @@ Reasons(e) ==
     ELSE LET exp == SquashBag(DocsOf(e), e.root, e.depth)
          IN  {<<"tree", d>> : d \in BagDiff(exp, ObsBag(e.tree_bag))}
              \cup {<<"markdown", d>> : d \in BagDiff(exp, ObsBag(e.md_bag))}
+             \* every section of the expansion is written with a heading marker, however deep it lies
+             \cup (IF "tree_sections" \in DOMAIN e /\ e.tree_sections # e.md_heading_lines
+                   THEN {<<"heading-marks", e.tree_sections, e.md_heading_lines>>} ELSE {})
+             \* the command line tool prints exactly this expansion, however many other notes the library holds
+             \cup (IF "cli" \in DOMAIN e /\ e.cli \in {"differs", "failed"} THEN {<<"iwe-squash-" \o e.cli>>} ELSE {})
 
 Step == /\ l <= Len(Rec) /\ l' = l + 1
         /\ LET e == Rec[l] IN
